@@ -207,19 +207,14 @@ def playback(repo, target_dir, harness_full, features=None, no_default_features=
     except subprocess.TimeoutExpired:
         return None, "playback generation timed out"
     gen = p.stdout
-    m = re.search(r"kani_concrete_playback_\w+", gen)
-    if not m:
-        # find in sources
-        g = subprocess.run(["grep", "-rhoE", r"fn kani_concrete_playback_\w+", os.path.join(repo, "src")],
-                           stdout=subprocess.PIPE, text=True).stdout
-        names = [x.split()[-1] for x in g.split("\n") if x and short in x]
-        if not names:
-            if log_path:
-                open(log_path, "w").write(gen)
-            return None, "no concrete playback test generated"
-        test = names[0]
-    else:
-        test = m.group(0)
+    # Kani writes one unit test per failing check AND per satisfied cover; run them all: the counterexample
+    # reproduces iff at least one of them fails natively.
+    test = f"kani_concrete_playback_{short}"
+    g = subprocess.run(["grep", "-rhoE", rf"fn {test}_\w+", os.path.join(repo, "src")], stdout=subprocess.PIPE, text=True).stdout
+    if not g.strip():
+        if log_path:
+            open(log_path, "w").write(gen)
+        return None, "no concrete playback test generated"
     cmd = ["cargo", "kani", "playback", "-Z", "concrete-playback"]
     if no_default_features:
         cmd.append("--no-default-features")
@@ -234,11 +229,13 @@ def playback(repo, target_dir, harness_full, features=None, no_default_features=
         return None, "playback run timed out"
     if log_path:
         open(log_path, "w").write(gen[-20000:] + "\n=== playback ===\n" + q.stdout[-20000:])
-    body = _extract_test(repo, test)
-    if re.search(r"test result: FAILED|panicked at", q.stdout):
-        return True, body + "\n--- native run ---\n" + q.stdout[-3000:]
-    if re.search(r"test result: ok\. 1 passed", q.stdout):
-        return False, body + "\n--- native run passed ---\n" + q.stdout[-1500:]
+    failed = re.findall(r"^test (\S*kani_concrete_playback_\S+) \.\.\. FAILED", q.stdout, re.M)
+    if failed:
+        body = _extract_test(repo, failed[0].split("::")[-1])
+        panics = "\n".join(l for l in q.stdout.splitlines() if "panicked at" in l or "assertion" in l)[:1500]
+        return True, body + "\n--- native run: FAILED tests: " + ", ".join(failed) + "\n" + panics
+    if re.search(r"test result: ok\. [1-9]\d* passed", q.stdout):
+        return False, "--- all generated playback tests passed natively ---\n" + q.stdout[-1500:]
     return None, q.stdout[-3000:]
 
 
